@@ -139,6 +139,14 @@ def enumerate_cases(tier):
     # an extended attribute of the ARCHIVE file is no attribute of its members
     for mode in ("", "dfs"):
         cases.append({"kind": "archive-xattr", "mode": mode})
+    # name decomposition of members below directories that carry a dot themselves (always run, not left to the draw)
+    dotted = [{"n": n, "size": 0 if n.endswith("/") else 7, "mode": (stat.S_IFDIR | 0o755) if n.endswith("/") else (stat.S_IFREG | 0o644),
+               "dt": [2020, 1, 2, 3, 4, 6]} for n in ("v1.2/", "v1.2/README", "conf.d/.gitignore", "a.b/", "src/main.rs", "x.tar.gz", "dir/x.", ".hid", "top.TXT")]
+    for mode in ("", "dfs"):
+        for q in ("plain", "where-size"):
+            cases.append({"kind": "search", "tree": {"d.zip": {"t": "z", "members": dotted}, "plain.txt": {"t": "f", "c": "x"},
+                                                     "sub": {"t": "d", "ch": {"e.JAR": {"t": "z", "members": dotted[:3]}}}},
+                          "q": q, "mode": mode, "clock": None, "window": None, "cfg": None, "n": 5, "thr": 0, "desc": False})
     cases.append({"kind": "damage", "damage": ["empty", 0]})
     cases.append({"kind": "damage", "damage": ["directory", 0]})
     cases.append({"kind": "damage", "damage": ["unreadable", 0]})
